@@ -28,6 +28,7 @@ import (
 	"github.com/idena-network/idena-go/core/state"
 	"github.com/idena-network/idena-go/core/state/snapshot"
 	"github.com/idena-network/idena-go/crypto"
+	"github.com/idena-network/idena-go/rlp"
 	"github.com/idena-network/idena-go/protocol"
 	"verif/mc/replica"
 	"verif/mc/report"
@@ -110,7 +111,6 @@ var transient = map[string]string{
 	"Transaction.hash":    "atomic.Value hash cache",
 	"Transaction.hash128": "atomic.Value hash cache",
 	"Transaction.from":    "atomic.Value sender cache",
-	"Transaction.UseRlp":  "legacy signing-mode switch of the local object",
 	"Transaction.validLongSessionAnswersProof": "atomic.Value validation cache",
 	"Transaction.size":    "atomic.Value size cache",
 	"Vote.hash":           "atomic.Value hash cache",
@@ -623,11 +623,17 @@ func signedChecks(c *ctxT) bool {
 	ts := []signedT{
 		{"types.Transaction", registry["types.Transaction"], func(x interface{}) {
 			tx := x.(*types.Transaction)
+			if tx.UseRlp {
+				// legacy signing mode (api.SendRawTx): the signature covers the RLP list of the fields
+				h := rlp.Hash([]interface{}{tx.AccountNonce, tx.Epoch, tx.Type, tx.To, tx.Amount, tx.MaxFee, tx.Tips, tx.Payload})
+				tx.Signature, _ = crypto.Sign(h[:], key)
+				return
+			}
 			s, _ := types.SignTx(tx, key)
 			tx.Signature = s.Signature
 		}, func(x interface{}) (common.Address, error) {
 			tx := x.(*types.Transaction)
-			cp := &types.Transaction{AccountNonce: tx.AccountNonce, Epoch: tx.Epoch, Type: tx.Type, To: tx.To, Amount: tx.Amount, MaxFee: tx.MaxFee, Tips: tx.Tips, Payload: tx.Payload, Signature: tx.Signature}
+			cp := &types.Transaction{AccountNonce: tx.AccountNonce, Epoch: tx.Epoch, Type: tx.Type, To: tx.To, Amount: tx.Amount, MaxFee: tx.MaxFee, Tips: tx.Tips, Payload: tx.Payload, Signature: tx.Signature, UseRlp: tx.UseRlp}
 			return types.Sender(cp)
 		}, ".Signature"},
 		{"types.Vote", registry["types.Vote"], func(x interface{}) {
